@@ -521,6 +521,43 @@ def validate_replay_fresh(prop, path):
                      % (path, text, out.stderr.decode("utf-8", "replace")))
 
 
+class _FinalShim(object):
+  def __init__(self, violation):
+    self.violation = violation
+
+
+def _fresh_only(prop, base_seed, first):
+  """ Replay the original (unshrunk) run in two fresh interpreters. """
+  class _R(object):
+    pass
+  res = _R()
+  res.violation = Violation(first["violation"]["class"],
+                            first["violation"]["signature"],
+                            first["violation"].get("detail", ""))
+  res.digest = first.get("digest", "")
+  res.sample = None
+  path = write_replay(prop, base_seed, first["origin"], first["workload"],
+                      first["s_log"], res,
+                      {"note": "not shrunk: re-executions inside one process "
+                               "disagree (state kept between runs); verified "
+                               "by fresh-interpreter replays only"})
+  a = validate_replay_fresh(prop, path)
+  b = validate_replay_fresh(prop, path)
+  va, vb = a.get("violation"), b.get("violation")
+  if not va or not vb or va.get("signature") != vb.get("signature") or \
+     a.get("event_digest") != b.get("event_digest"):
+    return None
+  v = Violation(va["class"], va["signature"], va.get("detail", ""))
+  res.violation, res.digest = v, a.get("event_digest")
+  write_replay(prop, base_seed, first["origin"], first["workload"],
+               first["s_log"], res,
+               {"note": "not shrunk: re-executions inside one process "
+                        "disagree (state kept between runs); verified by two "
+                        "fresh-interpreter replays"})
+  v.path = path
+  return v
+
+
 # --------------------------------------------------------------------------
 # evidence
 # --------------------------------------------------------------------------
@@ -662,24 +699,38 @@ def run_check(prop_name, tier, base_seed, workers=None, max_runs=None,
     first = sorted(total.violations, key=lambda v: [str(x) for x in
                                                     v["origin"]])[0]
     vkey = first["violation"]["class"] + "|" + first["violation"]["signature"]
+    final_violation = None
     try:
-      wl, s_log, final, spent = shrink(prop, first["workload"],
-                                       first["s_log"], vkey)
-      path = write_replay(prop, base_seed, first["origin"], wl, s_log, final,
-                          {"shrink_executions": spent,
-                           "original_workload": first["workload"]
-                           if first["workload"] != wl else None})
-      fresh = validate_replay_fresh(prop, path)
-      same = (fresh.get("violation") or {}).get("signature") == \
-        final.violation.signature and \
-        fresh.get("event_digest") == final.digest
-      if not same:
-        raise HarnessError("replay %s does not reproduce in a fresh "
-                           "interpreter: %r vs %r/%s"
-                           % (path, fresh, final.violation, final.digest))
+      try:
+        wl, s_log, final, spent = shrink(prop, first["workload"],
+                                         first["s_log"], vkey)
+        path = write_replay(prop, base_seed, first["origin"], wl, s_log,
+                            final, {"shrink_executions": spent,
+                                    "original_workload": first["workload"]
+                                    if first["workload"] != wl else None})
+        fresh = validate_replay_fresh(prop, path)
+        same = (fresh.get("violation") or {}).get("signature") == \
+          final.violation.signature and \
+          fresh.get("event_digest") == final.digest
+        if not same:
+          raise HarnessError("replay %s does not reproduce in a fresh "
+                             "interpreter: %r vs %r/%s"
+                             % (path, fresh, final.violation, final.digest))
+        final_violation = final.violation
+      except HarnessError as exc:
+        # Re-executions inside this process disagree with each other or with
+        # a fresh interpreter: the code under test keeps state between runs
+        # (module-level / class-level state).  The unshrunk run is then
+        # replayed in fresh interpreters only: it is a violation if two fresh
+        # replays agree with each other on a violation of the same class.
+        final_violation = _fresh_only(prop, base_seed, first)
+        if final_violation is None:
+          raise exc
+        path = final_violation.path
     except HarnessError as exc:
       print("HARNESS-ERROR property=%s %s" % (prop.id, exc))
       return EXIT_HARNESS
+    final = _FinalShim(final_violation)
     lines.append("VIOLATION property=%s replay=%s" % (prop.id, path))
     lines.append("  class=%s signature=%s" % (final.violation.klass,
                                               final.violation.signature))
